@@ -1,8 +1,80 @@
 import Req.Driver.Proto
+import Req.H1.BufLine
 /-! Driver lanes of C13. -/
 namespace Req.Driver.L.C13
-open Req.Proto
+open Req.Proto Req.H1.BufLine
 
-def lanes : List (String × (List String → String)) := []
+def errName : Option RErr → String
+  | none => "-"
+  | some (.src .eof) => "eof"
+  | some (.src (.other n)) => "o" ++ toString n
+  | some .noProgress => "noprogress"
+  | some .bufferFull => "full"
+  | some .tooLarge => "toolarge"
+  | some .stuck => "stuck"
+
+def mkSrc : List Bytes → List Nat → Option (List Chunk)
+  | [], [] => some []
+  | d :: ds, e :: es =>
+    (mkSrc ds es).map fun rest =>
+      (⟨d, if e = 0 then none else if e = 1 then some .eof else some (.other e)⟩ : Chunk) :: rest
+  | _, _ => none
+
+inductive Op
+  | L
+  | S (lim : Option Nat)
+  | K
+
+def parseOp (s : String) : Option Op :=
+  if s == "L" then some .L
+  else if s == "K" then some .K
+  else if s == "S" then some (.S none)
+  else if s.startsWith "S" then (s.drop 1).toNat?.map fun n => .S (some n)
+  else none
+
+/-- Runs the op list; returns the per-op renderings, the dump and the final reader. -/
+def runOps (B : Nat) (rl : LineFn) (dumpEaten : Bool) : List Op → Rd → Bytes → List String → List String × Bytes × Rd
+  | [], st, d, acc => (acc.reverse, d, st)
+  | .L :: ops, st, d, acc =>
+    match rl st with
+    | (r, st1, d1) =>
+      runOps B rl dumpEaten ops st1 (d ++ d1)
+        (("L:" ++ encodeHex r.line ++ ":" ++ (if r.isPrefix then "1" else "0") ++ ":" ++ errName r.err) :: acc)
+  | .S lim :: ops, st, d, acc =>
+    let r := readLineSlice rl lim st
+    let txt := match r.res with
+      | .ok l => "S:" ++ encodeHex l ++ ":-"
+      | .error e => "S:_:" ++ errName (some e)
+    runOps B rl dumpEaten ops r.st (d ++ r.dumped) (txt :: acc)
+  | .K :: ops, st, d, acc =>
+    match skipSpace B st with
+    | (e, st1) =>
+      runOps B rl dumpEaten ops st1 (if dumpEaten then d ++ e else d) (("K:" ++ toString e.length) :: acc)
+
+/-- `c13rl <B> <plain|dump|dumpold> <chunks> <errs> <ops>` →
+`<op results joined by ;> d=<dumped> r=<bytes still unread>`. -/
+def laneRl : List String → String
+  | [b, mode, chunks, errs, ops] =>
+    match b.toNat?, decodeList chunks, decodeNatList errs, (ops.splitOn ",").mapM parseOp with
+    | some B, some cs, some es, some os =>
+      match mkSrc cs es with
+      | none => "bad-op"
+      | some src =>
+        let sel : Option (LineFn × Bool) :=
+          if mode == "plain" then some (plainReadLine B, false)
+          else if mode == "dump" then some (dumpReadLine B, true)
+          else if mode == "dumpold" then some (dumpReadLineOld B, false)
+          else none
+        match sel with
+        | none => "bad-op"
+        | some (rl, de) =>
+          let (outs, d, st) := runOps B rl de os (Rd.ofSrc src) [] []
+          ";".intercalate outs ++ " d=" ++ encodeHex d ++ " r=" ++ encodeHex st.bytes
+    | _, _, _, _ => "bad-op"
+  | _ => "bad-op"
+
+def lanes : List (String × (List String → String)) := [
+  ("c13rl", laneRl)
+]
 
 end Req.Driver.L.C13
